@@ -91,12 +91,19 @@ class Node:
         """
         if self.yaml_node.tag == 'tag:yaml.org,2002:str':
             return str(self.yaml_node.value)
-        if self.yaml_node.tag == 'tag:yaml.org,2002:int':
-            return cast(int, _scalar_constructor.construct_yaml_int(
-                self.yaml_node))
-        if self.yaml_node.tag == 'tag:yaml.org,2002:float':
-            return cast(float, _scalar_constructor.construct_yaml_float(
-                self.yaml_node))
+        if self.yaml_node.tag in (
+                'tag:yaml.org,2002:int', 'tag:yaml.org,2002:float'):
+            try:
+                if self.yaml_node.tag == 'tag:yaml.org,2002:int':
+                    return cast(int, _scalar_constructor.construct_yaml_int(
+                        self.yaml_node))
+                return cast(float, _scalar_constructor.construct_yaml_float(
+                    self.yaml_node))
+            except (IndexError, OverflowError, ValueError):
+                # an explicit tag on something that isn't a number
+                raise RecognitionError(
+                        '{}\nInvalid value for a scalar with tag {}'.format(
+                            self.yaml_node.start_mark, self.yaml_node.tag))
         if self.yaml_node.tag == 'tag:yaml.org,2002:bool':
             return self.yaml_node.value in ['TRUE', 'True', 'true']
         if self.yaml_node.tag == 'tag:yaml.org,2002:null':
